@@ -387,5 +387,137 @@ pub(crate) fn spawn_task(
     cmd.spawn().map_err(MonorailError::from)
 }
 //!end
+
+// ---- ArgMap::merge: merging appends (C11: earlier merges come first in the argument list) ----
+pub open spec fn row(m: Map<Seq<char>, Vec<String>>, c: Seq<char>) -> Seq<String> { if m.dom().contains(c) { m[c]@ } else { Seq::empty() } }
+pub open spec fn cell(m: Map<Seq<char>, HashMap<String, Vec<String>>>, t: Seq<char>, c: Seq<char>) -> Seq<String> {
+    if m.dom().contains(t) { row(m[t]@, c) } else { Seq::empty() }
+}
+// what the first i entries of an iterated map contribute to (t, c) / to c
+pub open spec fn acc(sv: Seq<(String, HashMap<String, Vec<String>>)>, i: int, t: Seq<char>, c: Seq<char>) -> Seq<String> decreases i {
+    if i <= 0 { Seq::empty() } else { acc(sv, i - 1, t, c) + (if sv[i - 1].0@ == t { row(sv[i - 1].1@, c) } else { Seq::empty() }) }
+}
+pub open spec fn acc2(cv: Seq<(String, Vec<String>)>, j: int, c: Seq<char>) -> Seq<String> decreases j {
+    if j <= 0 { Seq::empty() } else { acc2(cv, j - 1, c) + (if cv[j - 1].0@ == c { cv[j - 1].1@ } else { Seq::empty() }) }
+}
+pub open spec fn lists1<V>(sv: Seq<(String, V)>, m: Map<Seq<char>, V>) -> bool {
+    &&& forall|i: int| 0 <= i < sv.len() ==> m.dom().contains((#[trigger] sv[i]).0@) && m[sv[i].0@] == sv[i].1
+    &&& forall|k: Seq<char>| m.dom().contains(k) ==> exists|i: int| 0 <= i < sv.len() && (#[trigger] sv[i]).0@ == k
+    &&& forall|i: int, j: int| 0 <= i < j < sv.len() ==> (#[trigger] sv[i]).0@ != (#[trigger] sv[j]).0@
+}
+proof fn lemma_acc2_none(cv: Seq<(String, Vec<String>)>, j: int, c: Seq<char>)
+    requires 0 <= j <= cv.len(), forall|k: int| 0 <= k < j ==> (#[trigger] cv[k]).0@ != c,
+    ensures acc2(cv, j, c) == Seq::<String>::empty()
+    decreases j
+{ if j > 0 { lemma_acc2_none(cv, j - 1, c); assert(acc2(cv, j - 1, c) + Seq::<String>::empty() =~= Seq::<String>::empty()); } }
+proof fn lemma_acc2_all(cv: Seq<(String, Vec<String>)>, m: Map<Seq<char>, Vec<String>>, j: int, c: Seq<char>)
+    requires lists1(cv, m), 0 <= j <= cv.len(),
+    ensures acc2(cv, j, c) == (if exists|k: int| 0 <= k < j && (#[trigger] cv[k]).0@ == c { row(m, c) } else { Seq::<String>::empty() })
+    decreases j
+{
+    if j > 0 {
+        lemma_acc2_all(cv, m, j - 1, c);
+        if cv[j - 1].0@ == c {
+            assert forall|k: int| 0 <= k < j - 1 implies (#[trigger] cv[k]).0@ != c by { }
+            lemma_acc2_none(cv, j - 1, c);
+            assert(m[c] == cv[j - 1].1);
+            assert(Seq::<String>::empty() + cv[j - 1].1@ =~= cv[j - 1].1@);
+        } else {
+            assert(acc2(cv, j - 1, c) + Seq::<String>::empty() =~= acc2(cv, j - 1, c));
+            if exists|k: int| 0 <= k < j && (#[trigger] cv[k]).0@ == c { let k = choose|k: int| 0 <= k < j && (#[trigger] cv[k]).0@ == c; assert(k < j - 1); }
+        }
+    }
+}
+proof fn lemma_acc2_done(cv: Seq<(String, Vec<String>)>, m: Map<Seq<char>, Vec<String>>, c: Seq<char>)
+    requires lists1(cv, m), ensures acc2(cv, cv.len() as int, c) == row(m, c)
+{ lemma_acc2_all(cv, m, cv.len() as int, c); if m.dom().contains(c) { let i = choose|i: int| 0 <= i < cv.len() && (#[trigger] cv[i]).0@ == c; } else { assert forall|k: int| 0 <= k < cv.len() implies (#[trigger] cv[k]).0@ != c by { } } }
+proof fn lemma_acc_none(sv: Seq<(String, HashMap<String, Vec<String>>)>, i: int, t: Seq<char>, c: Seq<char>)
+    requires 0 <= i <= sv.len(), forall|k: int| 0 <= k < i ==> (#[trigger] sv[k]).0@ != t,
+    ensures acc(sv, i, t, c) == Seq::<String>::empty()
+    decreases i
+{ if i > 0 { lemma_acc_none(sv, i - 1, t, c); assert(acc(sv, i - 1, t, c) + Seq::<String>::empty() =~= Seq::<String>::empty()); } }
+proof fn lemma_acc_all(sv: Seq<(String, HashMap<String, Vec<String>>)>, m: Map<Seq<char>, HashMap<String, Vec<String>>>, i: int, t: Seq<char>, c: Seq<char>)
+    requires lists1(sv, m), 0 <= i <= sv.len(),
+    ensures acc(sv, i, t, c) == (if exists|k: int| 0 <= k < i && (#[trigger] sv[k]).0@ == t { cell(m, t, c) } else { Seq::<String>::empty() })
+    decreases i
+{
+    if i > 0 {
+        lemma_acc_all(sv, m, i - 1, t, c);
+        if sv[i - 1].0@ == t {
+            assert forall|k: int| 0 <= k < i - 1 implies (#[trigger] sv[k]).0@ != t by { }
+            lemma_acc_none(sv, i - 1, t, c);
+            assert(m[t] == sv[i - 1].1);
+            assert(Seq::<String>::empty() + row(sv[i - 1].1@, c) =~= row(sv[i - 1].1@, c));
+        } else {
+            assert(acc(sv, i - 1, t, c) + Seq::<String>::empty() =~= acc(sv, i - 1, t, c));
+            if exists|k: int| 0 <= k < i && (#[trigger] sv[k]).0@ == t { let k = choose|k: int| 0 <= k < i && (#[trigger] sv[k]).0@ == t; assert(k < i - 1); }
+        }
+    }
+}
+proof fn lemma_acc_done(sv: Seq<(String, HashMap<String, Vec<String>>)>, m: Map<Seq<char>, HashMap<String, Vec<String>>>, t: Seq<char>, c: Seq<char>)
+    requires lists1(sv, m), ensures acc(sv, sv.len() as int, t, c) == cell(m, t, c)
+{ lemma_acc_all(sv, m, sv.len() as int, t, c); if m.dom().contains(t) { let i = choose|i: int| 0 <= i < sv.len() && (#[trigger] sv[i]).0@ == t; } else { assert forall|k: int| 0 <= k < sv.len() implies (#[trigger] sv[k]).0@ != t by { } } }
+
+impl ArgMap {
+//!fn src/app/run.rs ArgMap::merge rules=R12 props=C11
+    fn merge(&mut self, src: HashMap<String, HashMap<String, Vec<String>>>)
+@        ensures
+@            // C11: merging APPENDS - for every (target, command) the arguments already present stay in front, the merged ones follow in
+@            // their own order; nothing else changes
+@            forall|t: Seq<char>, c: Seq<char>| #![trigger cell(final(self).table@, t, c)] cell(final(self).table@, t, c) == cell(old(self).table@, t, c) + cell(src@, t, c), // [C11]
+    {
+        let src_vec = src.into_vec(); 
+@        let ghost sv = src_vec@;
+@        let ghost tb0 = self.table@;
+@        assert(lists1(sv, src@)) by { assert forall|i: int| 0 <= i < sv.len() implies src@.dom().contains((#[trigger] sv[i]).0@) && src@[sv[i].0@] == sv[i].1 by { assert(sv[i].0.kv() == sv[i].0@); } 
+@            assert forall|k: Seq<char>| src@.dom().contains(k) implies exists|i: int| 0 <= i < sv.len() && (#[trigger] sv[i]).0@ == k by { let i = choose|i: int| 0 <= i < sv.len() && (#[trigger] sv[i]).0.kv() == k; assert(sv[i].0@ == k); }
+@            assert forall|i: int, j: int| 0 <= i < j < sv.len() implies (#[trigger] sv[i]).0@ != (#[trigger] sv[j]).0@ by { assert(sv[i].0.kv() != sv[j].0.kv()); } }
+        for (src_target, src_commands) in ⟦its: ⟧src_vec
+@            invariant
+@                its.seq() == sv, lists1(sv, src@),
+@                forall|t: Seq<char>, c: Seq<char>| #![trigger cell(self.table@, t, c)] cell(self.table@, t, c) == cell(tb0, t, c) + acc(sv, its.index@ as int, t, c),
+        {
+@            let ghost i = its.index@ as int;
+@            let ghost tbi = self.table@;
+@            let ghost tt = src_target@;
+@            let ghost sc_src = src_commands@;
+            let self_commands = self.table.entry_or_default(src_target);
+@            let ghost sc0 = self_commands@;
+            let cmd_vec = src_commands.into_vec(); 
+@            let ghost cv = cmd_vec@;
+@            assert(lists1(cv, sc_src)) by { assert forall|q: int| 0 <= q < cv.len() implies sc_src.dom().contains((#[trigger] cv[q]).0@) && sc_src[cv[q].0@] == cv[q].1 by { assert(cv[q].0.kv() == cv[q].0@); }
+@                assert forall|k: Seq<char>| sc_src.dom().contains(k) implies exists|q: int| 0 <= q < cv.len() && (#[trigger] cv[q]).0@ == k by { let q = choose|q: int| 0 <= q < cv.len() && (#[trigger] cv[q]).0.kv() == k; assert(cv[q].0@ == k); }
+@                assert forall|p: int, q: int| 0 <= p < q < cv.len() implies (#[trigger] cv[p]).0@ != (#[trigger] cv[q]).0@ by { assert(cv[p].0.kv() != cv[q].0.kv()); } }
+            for (src_command, mut src_args) in ⟦itc: ⟧cmd_vec
+@                invariant
+@                    itc.seq() == cv,
+@                    forall|c: Seq<char>| #![trigger row(self_commands@, c)] row(self_commands@, c) == row(sc0, c) + acc2(cv, itc.index@ as int, c),
+            {
+@                let ghost j = itc.index@ as int;
+@                let ghost scj = self_commands@;
+@                let ghost cc = src_command@;
+@                let ghost args = src_args@;
+                self_commands
+                    .entry_or_default(src_command)
+                    .append(&mut src_args);
+@                assert forall|c: Seq<char>| #![trigger row(self_commands@, c)] row(self_commands@, c) == row(sc0, c) + acc2(cv, j + 1, c) by {
+@                    if c == cc { assert(row(self_commands@, c) =~= row(scj, c) + args); assert((row(sc0, c) + acc2(cv, j, c)) + args =~= row(sc0, c) + (acc2(cv, j, c) + args)); }
+@                    else { assert(row(self_commands@, c) == row(scj, c)); assert(acc2(cv, j, c) + Seq::<String>::empty() =~= acc2(cv, j, c)); }
+@                }
+            }
+@            proof {
+@                assert forall|t: Seq<char>, c: Seq<char>| #![trigger cell(self.table@, t, c)] cell(self.table@, t, c) == cell(tb0, t, c) + acc(sv, i + 1, t, c) by {
+@                    if t == tt {
+@                        lemma_acc2_done(cv, sc_src, c);
+@                        assert(row(sc0, c) == cell(tbi, t, c));
+@                        assert((cell(tb0, t, c) + acc(sv, i, t, c)) + row(sc_src, c) =~= cell(tb0, t, c) + (acc(sv, i, t, c) + row(sc_src, c)));
+@                    } else { assert(cell(self.table@, t, c) == cell(tbi, t, c)); assert(acc(sv, i, t, c) + Seq::<String>::empty() =~= acc(sv, i, t, c)); }
+@                }
+@            }
+        }
+@        proof { assert forall|t: Seq<char>, c: Seq<char>| #![trigger cell(self.table@, t, c)] cell(self.table@, t, c) == cell(tb0, t, c) + cell(src@, t, c) by { lemma_acc_done(sv, src@, t, c); } }
+    }
+//!end
+}
 } // verus!
 fn main() {}
